@@ -292,6 +292,27 @@ m("c18-strtok-parser", "C18", H3INDEX,
     }""",
   "stringToH3: strtok-based parser (state in libc, not trapped; interleaving-dependent and benign here)", "none-expected")
 
+m("c18-strtok-trailing-token", "C18", H3INDEX,
+  """    int read = sscanf(str, "%" PRIx64, &h);
+    if (read != 1) {
+        return E_FAILED;
+    }""",
+  """    char tmp[64];
+    strncpy(tmp, str, sizeof(tmp) - 1);
+    tmp[sizeof(tmp) - 1] = 0;
+    char *tok = strtok(tmp, " ");
+    if (tok == NULL) return E_FAILED;
+    // "strict" parsing: anything after the number is rejected
+    char *rest = strtok(NULL, " ");
+    if (rest != NULL) return E_FAILED;
+    int read = sscanf(tok, "%" PRIx64, &h);
+    if (read != 1) {
+        return E_FAILED;
+    }""",
+  "stringToH3: strtok-based strict parser; the continuation call reads libc's hidden pointer, which another "
+  "thread's stringToH3 has moved in the meantime (needs a string with a trailing token, a second thread parsing "
+  "between the two strtok calls: a window of a few instructions)", "I3-result-differs")
+
 m("c18-shared-scratch-race", "C18", ALGOS,
   """H3Error H3_EXPORT(maxGridDiskSize)(int k, int64_t *out) {
     if (k < 0) {
